@@ -178,7 +178,7 @@ def _work(ctx: Ctx, item):
     @st.composite
     def cases(draw):
         pool = draw(st.lists(traffic.names(), min_size=2, max_size=3, unique=True))
-        items = draw(traffic.history(min_msgs=4, max_msgs=14, sources=(1, 2, 3, 4), name_pool=pool,
+        items = draw(traffic.history(min_msgs=4, max_msgs=14, sources=(1, 2, 3, 4), name_pool=pool, commanded=True,
                                      single_keys=traffic.SINGLE_KEYS + ["59904/isoRequest"] * 3,
                                      fast_keys=["129029/gnssPositionData", "127489/engineParametersDynamic"]))
         gaps = draw(st.lists(st.sampled_from([0.0, 0.001, 1.0, 20.0]), min_size=len(items), max_size=len(items)))
